@@ -403,6 +403,26 @@ theorem exec_sim (cfg : Cfg) (nb : Nat) {a : Arena} (h : WF a) (hinit : 0 < a.in
       refine Or.inl ⟨a, ?_, h, rfl, rfl⟩
       rw [hback]; rfl
     · cases hspec
+  | regPtr slot target =>
+    simp only [astep] at hspec
+    split at hspec
+    · rename_i hc
+      obtain ⟨hb, ho, hfree, ht⟩ := hc
+      rw [abs_fst_length] at hb
+      rw [aBody_abs_length] at ho
+      simp only [Option.some.injEq, Prod.mk.injEq] at hspec
+      rw [← hspec.1, ← hspec.2]
+      obtain ⟨p, hp, hvp, hlt, hback⟩ := target_ptr h ht
+      have hsz := h.sizes _ (bufAt_mem hb)
+      have hclear : ∀ r ∈ a.relocs, Clear r slot.buf slot.off 8 := (aFree_iff _ _ _ _).1 hfree
+      have ⟨hw, ha⟩ := regSet_spec h ⟨ho, hb⟩ hclear hvp hlt
+      unfold Sim; simp only [exec]
+      simp only [hp]
+      rw [if_pos ⟨ho, hb⟩, makeRelocs_cons, makeRelocs_nil, Nat.zero_add, Nat.mod_eq_of_lt (by omega)]
+      refine Or.inl ⟨_, rfl, hw, rfl, ?_⟩
+      rw [hback] at ha
+      exact ha
+    · cases hspec
 
 /-! ### sequences -/
 
